@@ -60,6 +60,16 @@ def _lin(o, depth=0):
         for kk, v in y.items():
             out[kk] = out.get(kk, 0) + pair[0] * v
         return {kk: v for kk, v in out.items() if v}
+    c = _try_payload_call(o)
+    if c is not None and _PROG[0] is not None and _PARAM_ROLES[0] is None:
+        h = _PROG[0].fn_opt(str(c[1]))
+        if h is not None and h.crate == "rusty_variant":
+            roles = {i: r for i, r in enumerate(_role(a) for a in c[2]) if r}
+            if roles:
+                _c, oks = _helper_summary(h, roles)
+                if len(oks) == 1 and oks[0] is not None:
+                    return oks[0]
+        return None
     if k in ("bin", "call", "agg", "un", "unknown"):
         return None
     r = _role(o)
@@ -92,6 +102,7 @@ def r2_abs_index(ctx, rule="C04.R2"):
     (arg - lbound + 1 <= 0) and arg > ubound (ubound - arg + 1 <= 0), however they are spelled (`arg > ubound`,
     `arg - lbound >= size`, `!(0..size).contains(&(arg - lbound))` ...)."""
     prog = ctx.prog
+    _PROG[0] = prog
     fn = ctx.anchor_method("VArray", "abs_index")
     body = fn.body
     pv = mir.Prov(body)
@@ -160,6 +171,21 @@ def r2_abs_index(ctx, rule="C04.R2"):
             if edge_leads_to_err(bb, local, on_true=neg):
                 conds.append((bb, _sub(item, lo, 1)))                       # item < lo
                 conds.append((bb, _sub(hi, item, 1) if inclusive else _sub(hi, item)))   # item > hi / item >= hi
+    # a helper that is handed the index and the bounds and whose error is propagated with `?`
+    for b, t in body.calls():
+        h = prog.fns.get(t.get("res") or mir.callee_of(t))
+        if h is None or h.crate != "rusty_variant" or h.id == fn.id or "Result" not in h.body.locals[0]["ty"]:
+            continue
+        roles = {i: r for i, r in enumerate(_role(pv.of_operand(a)) for a in t["args"]) if r}
+        if "arg" not in roles.values():
+            continue
+        nxt = t.get("t")
+        propagated = nxt is not None and any(mir.callee_path(t2).endswith("Try>::branch") and mir.op_place(t2["args"][0]) == t.get("d")
+                                             for b2, t2 in body.calls() if b2 == nxt)
+        if not propagated:
+            continue
+        hc, _oks = _helper_summary(h, roles)
+        conds += [(b, f) for f in hc]
     want = {"arg-lt-lbound": ({"arg": 1, "lbound": -1, "1": 1}, "index below the lower bound", ("arg", "lbound")),
             "arg-gt-ubound": ({"ubound": 1, "arg": -1, "1": 1}, "index above the upper bound", ("arg", "ubound"))}
     for name, (form, what, syms) in want.items():
@@ -184,7 +210,59 @@ def r2_abs_index(ctx, rule="C04.R2"):
     ctx.require(rule, 4)
 
 
+_PARAM_ROLES = [None]     # while a helper of abs_index is analysed: {param index: role}
+_PROG = [None]
+
+
+def _try_payload_call(o):
+    """the call whose Ok payload o is (`helper(..)?`), else None"""
+    if o[0] == "field" and o[2] in ("0", 0) and o[1][0] == "downcast" and o[1][2] == "Continue":
+        c = o[1][1]
+        if c[0] == "call" and str(c[1]).endswith("Try>::branch") and c[2] and c[2][0][0] == "call":
+            return c[2][0]
+    return None
+
+
+def _helper_summary(h, roles):
+    """(error conditions, Ok payload forms) of a helper of abs_index, its parameters standing for `roles`"""
+    body = h.body
+    pv = mir.Prov(body)
+    saved = _PARAM_ROLES[0]
+    _PARAM_ROLES[0] = roles
+    try:
+        err_blocks = {b for b, blk in enumerate(body.blocks) for s in blk["s"]
+                      if s["k"] == "assign" and s["r"]["k"] == "agg" and s["r"].get("variant") == "Err"
+                      and s["r"].get("adt") == "core::result::Result"}
+        ok_blocks = {b for b, blk in enumerate(body.blocks) for s in blk["s"]
+                     if s["k"] == "assign" and s["r"]["k"] == "agg" and s["r"].get("variant") == "Ok"
+                     and s["r"].get("adt") == "core::result::Result"}
+        conds, oks = [], []
+        for b, blk in enumerate(body.blocks):
+            if blk.get("c"):
+                continue
+            for s in blk["s"]:
+                if s["k"] == "assign" and s["r"]["k"] == "bin" and s["r"]["op"] in ("Lt", "Le", "Gt", "Ge") and not s.get("mx"):
+                    x, y = _lin(pv.of_operand(s["r"]["a"])), _lin(pv.of_operand(s["r"]["b"]))
+                    if x is None or y is None:
+                        continue
+                    f = {"Lt": _sub(x, y, 1), "Le": _sub(x, y), "Gt": _sub(y, x, 1), "Ge": _sub(y, x)}[s["r"]["op"]]
+                    t = body.term(b)
+                    if t["k"] == "switch" and mir.op_place(t["o"]) and mir.op_place(t["o"])[0] == s["p"][0]:
+                        false_t = [tg for v, tg in t["ts"] if v == 0]
+                        if false_t and body.reachable(t["else"], avoid=set(false_t) | ok_blocks) & err_blocks:
+                            conds.append(f)
+                if s["k"] == "assign" and s["r"]["k"] == "agg" and s["r"].get("variant") == "Ok" \
+                        and s["r"].get("adt") == "core::result::Result" and s["r"]["ops"]:
+                    oks.append(_lin(pv.of_operand(s["r"]["ops"][0])))
+        return conds, oks
+    finally:
+        _PARAM_ROLES[0] = saved
+
+
 def _role(o):
+    if _PARAM_ROLES[0] is not None:
+        base = mir.strip_all(o)
+        return _PARAM_ROLES[0].get(base[1]) if base[0] == "param" else None
     # the iterator spelling: `for (&arg, &(lbound, ubound)) in indices.iter().zip(self.dimensions.iter())`
     import re as _re
     full = str(o)
@@ -349,6 +427,7 @@ def r6_stride_is_running_product(ctx, rule="C04.R6"):
     dimension sizes (necessary for distinct tuples to map to distinct elements when there are three
     or more dimensions)."""
     prog = ctx.prog
+    _PROG[0] = prog
     fn = ctx.anchor_method("VArray", "abs_index")
     body = fn.body
     pv = mir.Prov(body)
